@@ -4,7 +4,7 @@ try:
 except NameError:
     def assume(cond):
         return None
-from glom.core import glom, T, GlomError, arg_val, chain_child, Path, SKIP, STOP
+from glom.core import glom, T, GlomError, arg_val, chain_child, Path, SKIP, STOP, MODE, bbrepr
 from glom.matching import (M, MatchError, TypeMatchError, CheckError, _MISSING, _MSubspec, _MExpr, _M_OP_MAP, RAISE, Required, Optional,
                            _precedence, _handle_dict, _glom_match)
 
@@ -156,3 +156,99 @@ def check_ref(self, target, scope):
     if errs:
         raise CheckError(errs, self, scope[Path])
     return original
+
+
+# ------------------------------------------------------------------------------------------------------------------ C09
+def match_glomit_ref(self, target, scope):
+    """Match(pattern): evaluate the pattern in match mode; any GlomError yields the (argument-evaluated) default if one was given"""
+    scope[MODE] = _glom_match
+    try:
+        ret = scope[glom](target, self.spec, scope)
+    except GlomError:
+        if self.default is _MISSING:
+            raise
+        ret = arg_val(target, self.default, scope)
+    return ret
+
+
+def match_ref(target, spec, scope):
+    """match mode: types by isinstance; dicts by match_dict_ref; list / set / frozenset: same container type and every element
+    matches the first alternative that accepts it (an empty pattern only matches an empty target); tuples: a tuple of the same
+    length, position-wise; callables: truthy result, any exception is a rejection; everything else by ==.  Type failures are
+    TypeMatchError, the others MatchError; the (rebuilt) target is returned"""
+    if isinstance(spec, type):
+        if not isinstance(target, spec):
+            raise TypeMatchError(type(target), spec)
+        return target
+    if isinstance(spec, dict):
+        return _handle_dict(target, spec, scope)
+    if isinstance(spec, (list, set, frozenset)):
+        if not isinstance(target, type(spec)):
+            raise TypeMatchError(type(target), type(spec))
+        out = []
+        for element in target:
+            for alternative in spec:
+                try:
+                    out.append(scope[glom](element, alternative, scope))
+                    break
+                except GlomError as e:
+                    last = e
+            else:
+                if target and not spec:
+                    raise MatchError("{0!r} does not match empty {1}", target, type(spec).__name__)
+                raise last
+        if type(spec) is not list:
+            return type(spec)(out)
+        return out
+    if isinstance(spec, tuple):
+        if not isinstance(target, tuple):
+            raise TypeMatchError(type(target), tuple)
+        if len(target) != len(spec):
+            raise MatchError("{0!r} does not match {1!r}", target, spec)
+        out = []
+        for sub_target, sub_spec in zip(target, spec):
+            out.append(scope[glom](sub_target, sub_spec, scope))
+        return tuple(out)
+    if callable(spec):
+        try:
+            if spec(target):
+                return target
+        except Exception as e:
+            raise MatchError("{0}({1!r}) did not validate (got exception {2!r})", spec.__name__, target, e)
+        raise MatchError("{0}({1!r}) did not validate (non truthy return)", spec.__name__, target)
+    if target != spec:
+        raise MatchError("{0!r} does not match {1!r}", target, spec)
+    return target
+
+
+def match_dict_ref(target, spec, scope):
+    """dict patterns: the target must be a dict; for each target item the spec keys are tried IN SPEC ORDER (Required(k) stands
+    for k), the first key whose match succeeds routes the value (matched with the key's bindings chained in); an item matching no
+    key is a rejection.  Keys that must be hit at least once: equality keys not wrapped in Optional, and Required keys.
+    Optional defaults are filled in for absent keys."""
+    if not isinstance(target, dict):
+        raise TypeMatchError(type(target), dict)
+    needed = {k for k in spec if _precedence(k) == 0 and type(k) is not Optional or type(k) is Required}
+    defaults = {k.key: k.default for k in spec if type(k) is Optional and k.default is not _MISSING}
+    out = {}
+    for key, val in target.items():
+        for candidate in spec:
+            if type(candidate) is Required:
+                key_pattern = candidate.key
+            else:
+                key_pattern = candidate
+            try:
+                key = scope[glom](key, key_pattern, scope)
+            except GlomError:
+                pass
+            else:
+                out[key] = scope[glom](val, spec[candidate], chain_child(scope))
+                needed.discard(candidate)
+                break
+        else:
+            raise MatchError("key {0!r} didn't match any of {1!r}", key, spec)
+    for key in set(defaults) - set(out):
+        out[key] = arg_val(target, defaults[key], scope)
+    if needed:
+        raise MatchError("target missing expected keys: {0}", ', '.join([bbrepr(r) for r in needed]))
+    return out
